@@ -174,6 +174,40 @@ Theorem strict_runs_only_if_signed :
 Proof. exact strict_ran_signed. Qed.
 Print Assumptions strict_runs_only_if_signed.
 
+(* THE TIME WINDOW, OVER ALL INTEGERS.  The timestamp is client-supplied text; whatever integer t it
+   parses to — 0, negative, milliseconds instead of seconds, 2^31, 2^40, 2^62, 2^63-1, -2^63, or far
+   beyond any machine word: the model computes in Z — a handler behind a strict gate ran only if
+   |now - t| <= tolerance.  (The executor checks today's int64 code against this on the boundary
+   set; Pinned.pinned_saturating_skew_refuted is a variant whose machine arithmetic breaks it.) *)
+Theorem accepted_timestamp_within_tolerance :
+  forall ulfix rsa_dec cmac sha aes_ok E D b64enc b64dec decs tol now limit r resp,
+  checked (r_method r) = true ->
+  o_ran (cs_handler ulfix rsa_dec cmac sha aes_ok E D b64enc b64dec true decs tol now limit r resp) = true ->
+  exists fp kid sc sec t,
+    h_fp (r_hdr r) = Some fp /\ find_key fp decs = Some kid /\ h_secret (r_hdr r) = Some sc /\
+    rsa_dec kid sc = Some sec /\ sk_tsval sec = Some t /\ Z.abs (now - t) <= tol.
+Proof.
+  intros until resp. intros Hc Hr.
+  destruct (strict_ran_signed ulfix rsa_dec cmac sha aes_ok E D b64enc b64dec decs tol now limit r resp Hc Hr)
+    as (fp&kid&sc&sg&sec&key&ct&ts&A1&A2&A3&A4&A5&A6&A7&A8&A9&A10).
+  exists fp, kid, sc, sec, ts. repeat split; auto. lia.
+Qed.
+Print Assumptions accepted_timestamp_within_tolerance.
+
+(* conversely a timestamp outside the window is answered 403, for every integer *)
+Theorem timestamp_outside_window_gets_403 :
+  forall ulfix rsa_dec cmac sha aes_ok E D b64enc b64dec decs tol now limit r resp,
+  checked (r_method r) = true ->
+  (forall fp kid sc sec t, h_fp (r_hdr r) = Some fp -> find_key fp decs = Some kid -> h_secret (r_hdr r) = Some sc ->
+     rsa_dec kid sc = Some sec -> sk_tsval sec = Some t -> tol < Z.abs (now - t)) ->
+  cs_handler ulfix rsa_dec cmac sha aes_ok E D b64enc b64dec true decs tol now limit r resp = mkHout false 403 [] [] false.
+Proof.
+  intros until resp. intros Hc Hout. apply strict_unsigned_403; auto.
+  intros (fp&kid&sc&sg&sec&key&ct&ts&A1&A2&A3&A4&A5&A6&A7&A8&A9&A10).
+  specialize (Hout fp kid sc sec ts A1 A2 A3 A5 A8). lia.
+Qed.
+Print Assumptions timestamp_outside_window_gets_403.
+
 (* ... and without an X-Request-Uri header that is the request's own path and query *)
 Theorem strict_runs_only_if_signed_url :
   forall ulfix rsa_dec cmac sha aes_ok E D b64enc b64dec decs tol now limit r resp,
